@@ -2,3 +2,5 @@
 ; the captured node text wins over the #set! language
 ((embed lang: (word) @injection.language (raw) @injection.content) (#set! injection.language "tmpl"))
 ((call fn: (word) @_f (embed (raw) @injection.content)) (#eq? @_f "me") (#set! injection.self))
+; two content captures in one match: the LAST one is the content
+((call fn: (word) @_f (embed (raw) @injection.content) (embed (raw) @injection.content)) (#eq? @_f "two") (#set! injection.language "stmt"))
